@@ -134,7 +134,7 @@ def on_probe(p, r, exc, acc):
 
 
 TB_POSITIONS = ["expression", "code-block", "control-line", "def-body", "call-body", "call-body-of-a-def-in-another-template", "strict-undefined-name"]
-TB_SOURCES = ["string", "string-with-uri", "file", "lookup", "module-file", "module-file-reload", "module-file-after-edit", "module-directory-through-symlink", "lookup-through-symlink"]
+TB_SOURCES = ["string", "string-with-uri", "file", "lookup", "module-file", "module-file-reload", "module-file-after-edit", "relative-module-filename", "module-directory-through-symlink", "lookup-through-symlink"]
 
 
 def h_tbprobe(p):
